@@ -76,9 +76,11 @@ def c12_jobs(tier, seed):
     q = tier == "quick"
     s = 15 if q else 150
     j = []
-    j += shards("dbg", "w_lockfree", "c12", 6 if q else 8, s, seed)
-    j += shards("rel", "w_lockfree", "c12", 3 if q else 4, s, seed, first=20)
-    j += shards("tsan", "w_lockfree", "c12 --d1 150 --d2 10 --rand 10", 3 if q else 4, s, seed, first=40)
+    hm = 300 if q else 2500
+    j += shards("dbg", "w_lockfree", "c12 --hammer-ms %d" % hm, 6 if q else 8, s, seed)
+    j += shards("rel", "w_lockfree", "c12 --hammer-ms %d" % hm, 3 if q else 4, s, seed, first=20)
+    # the hammer stage races plain harness writes with the optimistic copy by design (benign, see 2.F5): not under TSan
+    j += shards("tsan", "w_lockfree", "c12 --hammer-ms 0 --d1 150 --d2 10 --rand 10", 3 if q else 4, s, seed, first=40)
     j += miri("w_lockfree", "c12 --single-store --off 2", 2 if q else 8, s, seed, M1)
     j += miri("w_lockfree", "c12 --off 2", 2 if q else 8, s, seed, M2, first=10)
     # port level: Writer / Reader / EntryHandle(Mut) on local and ipc blackboard services
